@@ -242,6 +242,9 @@ theorem Pre_usingBody (σ0 : State) (n : ClassId) (hn : σ0.classes.length ≤ n
       case members ms =>
         exact Pre_usingBody σ0 n hn rest _ σ2
           (Pre_setOwn σ0 _ (hp.trans (Pre_alloc σ1 _)) n hn a _) h
+      case memberRefs ms =>
+        exact Pre_usingBody σ0 n hn rest _ σ2
+          (Pre_setOwn σ0 _ (hp.trans (Pre_alloc σ1 _)) n hn a _) h
       all_goals exact Pre_usingBody σ0 n hn rest _ σ2 (Pre_setOwn σ0 σ1 hp n hn a _) h
     · simp at h
 
@@ -442,28 +445,17 @@ theorem instance_local (σ : State) (c : ClassId) (kw : List (KwName × KwVal))
       · split <;> split <;> rfl
   · rfl
 
-/-! ## the regeneration rule of `DateYYYYMMDD.__compound_init__`: history independence -/
+/-! ## the regeneration rule of `DateYYYYMMDD.__compound_init__`: history independence
 
-theorem userFields_idem (xs : List Item) : userFields (userFields xs) = userFields xs := by
-  simp [userFields, List.filter_filter]
+As of /repo 33c5842 the rule is by list *identity*: a `field_schema` list that was built by the
+preparation of the class owning it (`_compound_built[0] is field_schema`) is rebuilt from the
+members that preparation started from (`_compound_built[1]`); any other list — in particular one
+supplied by the user, whatever members it reuses — is taken as it is. -/
 
-theorem userFields_drop_defaults (o : Bool) (n : Nat) :
-    userFields ((generatedDefaults o).drop n) = [] := by
-  rcases n with _ | _ | _ | _ | n <;> simp [generatedDefaults, userFields]
-
-/-- generated members are dropped wherever they sit, user-supplied ones are kept: the
-    user-supplied part of a prepared member list is the user-supplied part it was built from -/
-theorem userFields_preparedFields (xs : List Item) (o : Bool) :
-    userFields (preparedFields (userFields xs) o) = userFields xs := by
-  unfold preparedFields
-  have : ∀ a b : List Item, userFields (a ++ b) = userFields a ++ userFields b := by
-    intro a b; simp [userFields]
-  rw [this, userFields_idem, userFields_drop_defaults, List.append_nil]
-
-/-- the member list class `c` gets when it is prepared: a function of its user-supplied
-    members and its own `optional` only -/
+/-- the member list class `c` gets when it is prepared: a function of the members it is
+    supplied with (`suppliedOf`) and its own `optional` only -/
 def preparedOf (σ : State) (c : ClassId) : List Item :=
-  preparedFields (userFields (seqOf σ c .fieldSchema)) (optionalOf σ c)
+  preparedFields (suppliedOf σ c) (optionalOf σ c)
 
 theorem classes_updCls (σ : State) (c x : ClassId) (f : Cls → Cls) :
     (updCls σ c f).classes[x]? = if x = c then (σ.classes[x]?).map f else σ.classes[x]? := by
@@ -493,14 +485,15 @@ theorem assoc_assocSet {α β : Type} [DecidableEq α] (l : List (α × β)) (a 
     split <;> simp only [assoc] <;> grind
 
 /-- what preparing class `p` does to the store: nothing, or only the flag, or — when members
-    have to be generated — a fresh list `F` bound to `p.field_schema` -/
+    have to be generated — a fresh list bound to `p.field_schema` and remembered in `_compound_built` -/
 structure PreparedFrom (σ τ : State) (p : ClassId) : Prop where
   mro : ∀ x, τ.mroOf x = σ.mroOf x
   own_ne : ∀ x, x ≠ p → τ.ownOf x = σ.ownOf x
-  own_p : (((seqOf σ p .fieldSchema).length ≥ 4 ∨ (userFields (seqOf σ p .fieldSchema)).length = 3) ∧
-      τ.ownOf p = σ.ownOf p) ∨
+  built_ne : ∀ x, x ≠ p → builtOf τ x = builtOf σ x
+  own_p : (((seqOf σ p .fieldSchema).length ≥ 4 ∨ (suppliedOf σ p).length = 3) ∧
+      τ.ownOf p = σ.ownOf p ∧ builtOf τ p = builtOf σ p) ∨
     (∃ r, (∀ a, assoc (τ.ownOf p) a = if Attr.fieldSchema = a then some (.list r) else assoc (σ.ownOf p) a) ∧
-      τ.items r = preparedOf σ p)
+      τ.items r = preparedOf σ p ∧ builtOf τ p = some (r, suppliedOf σ p))
   heap : ∀ r, r < σ.heap.length → τ.items r = σ.items r
 
 theorem mroOf_updCls (σ : State) (c x : ClassId) (f : Cls → Cls) (hf : ∀ cl, (f cl).mro = cl.mro) :
@@ -525,14 +518,24 @@ theorem mroOf_setOwn (σ : State) (c x : ClassId) (a : Attr) (v : Val) :
 theorem ownOf_setOwn_ne (σ : State) (c x : ClassId) (a : Attr) (v : Val) (h : x ≠ c) :
     (setOwn σ c a v).ownOf x = σ.ownOf x := ownOf_updCls_ne σ c x _ h
 
+theorem builtOf_updCls_ne (σ : State) (c x : ClassId) (f : Cls → Cls) (h : x ≠ c) :
+    builtOf (updCls σ c f) x = builtOf σ x := by
+  simp [builtOf, classes_updCls, h]
+
+theorem builtOf_updCls_self (σ : State) (c : ClassId) (f : Cls → Cls) (cl : Cls) (h : σ.classes[c]? = some cl) :
+    builtOf (updCls σ c f) c = (f cl).built := by
+  simp [builtOf, classes_updCls, h]
+
 def setPrepared (cl : Cls) : Cls := { cl with prepared := true }
+def setBuilt (r : Ref) (supplied : List Item) (cl : Cls) : Cls :=
+  { cl with prepared := true, built := some (r, supplied) }
 
 theorem compoundInit_fst (σ : State) (p : ClassId) :
     (compoundInit σ p).1 =
       if (seqOf σ p .fieldSchema).length ≥ 4 then σ
-      else if (userFields (seqOf σ p .fieldSchema)).length = 3 then updCls σ p setPrepared
+      else if (suppliedOf σ p).length = 3 then updCls σ p setPrepared
       else updCls (setOwn { σ with heap := σ.heap ++ [preparedOf σ p] } p .fieldSchema (.list σ.heap.length))
-        p setPrepared := by
+        p (setBuilt σ.heap.length (suppliedOf σ p)) := by
   unfold compoundInit
   simp only []
   split
@@ -548,38 +551,46 @@ theorem compoundInit_preparedFrom (σ : State) (p : ClassId) (hp : p < σ.classe
   rw [compoundInit_fst]
   split
   · rename_i h4
-    exact ⟨fun _ => rfl, fun _ _ => rfl, Or.inl ⟨Or.inl h4, rfl⟩, fun _ _ => rfl⟩
+    exact ⟨fun _ => rfl, fun _ _ => rfl, fun _ _ => rfl, Or.inl ⟨Or.inl h4, rfl, rfl⟩, fun _ _ => rfl⟩
   · split
     · rename_i h3
       refine ⟨fun x => mroOf_updCls σ p x setPrepared (fun _ => rfl), fun x hx => ownOf_updCls_ne σ p x _ hx,
-        Or.inl ⟨Or.inr h3, ?_⟩, fun r _ => by simp [State.items, heap_updCls]⟩
-      rw [ownOf_updCls_self σ p _ cl hcl]; simp [State.ownOf, hcl, setPrepared]
-    · -- members are generated: a fresh list, bound to p.field_schema, and the flag
+        fun x hx => builtOf_updCls_ne σ p x _ hx, Or.inl ⟨Or.inr h3, ?_, ?_⟩,
+        fun r _ => by simp [State.items, heap_updCls]⟩
+      · rw [ownOf_updCls_self σ p _ cl hcl]; simp [State.ownOf, hcl, setPrepared]
+      · rw [builtOf_updCls_self σ p _ cl hcl]; simp [builtOf, hcl, setPrepared]
+    · -- members are generated: a fresh list, bound to p.field_schema, remembered, and the flag
       obtain ⟨σ1, hσ1⟩ : ∃ σ1 : State, σ1 = { σ with heap := σ.heap ++ [preparedOf σ p] } := ⟨_, rfl⟩
       rw [← hσ1]
       have hcl1 : σ1.classes[p]? = some cl := by rw [hσ1]; exact hcl
       have hm1 : ∀ x, σ1.mroOf x = σ.mroOf x := fun x => by rw [hσ1]; rfl
       have ho1 : ∀ x, σ1.ownOf x = σ.ownOf x := fun x => by rw [hσ1]; rfl
+      have hb1 : ∀ x, builtOf σ1 x = builtOf σ x := fun x => by rw [hσ1]; rfl
       have h2 : (setOwn σ1 p .fieldSchema (.list σ.heap.length)).classes[p]?
           = some { cl with own := assocSet cl.own .fieldSchema (.list σ.heap.length) } := by
         unfold setOwn; rw [classes_updCls]; simp [hcl1]
-      have hheap : (updCls (setOwn σ1 p .fieldSchema (.list σ.heap.length)) p setPrepared).heap
-          = σ.heap ++ [preparedOf σ p] := by
+      have hheap : (updCls (setOwn σ1 p .fieldSchema (.list σ.heap.length)) p
+          (setBuilt σ.heap.length (suppliedOf σ p))).heap = σ.heap ++ [preparedOf σ p] := by
         rw [heap_updCls]; unfold setOwn; rw [heap_updCls, hσ1]
-      refine ⟨fun x => ?_, fun x hx => ?_, Or.inr ⟨σ.heap.length, fun a => ?_, ?_⟩, fun r hr => ?_⟩
-      · rw [mroOf_updCls _ p x setPrepared (fun _ => rfl), mroOf_setOwn, hm1]
+      refine ⟨fun x => ?_, fun x hx => ?_, fun x hx => ?_, Or.inr ⟨σ.heap.length, fun a => ?_, ?_, ?_⟩,
+        fun r hr => ?_⟩
+      · rw [mroOf_updCls _ p x (setBuilt _ _) (fun _ => rfl), mroOf_setOwn, hm1]
       · rw [ownOf_updCls_ne _ p x _ hx, ownOf_setOwn_ne _ _ _ _ _ hx, ho1]
+      · rw [builtOf_updCls_ne _ p x _ hx]
+        unfold setOwn
+        rw [builtOf_updCls_ne _ p x _ hx, hb1]
       · rw [ownOf_updCls_self _ p _ _ h2]
-        simp only [setPrepared, assoc_assocSet]
+        simp only [setBuilt, assoc_assocSet]
         simp [State.ownOf, hcl]
       · simp [State.items, hheap]
+      · rw [builtOf_updCls_self _ p _ _ h2]; rfl
       · simp only [State.items, hheap, List.getElem?_append_left hr]
 
 theorem own_attr_preparedFrom {σ τ : State} {p : ClassId} (h : PreparedFrom σ τ p) (x : ClassId) (a : Attr)
     (hxa : x ≠ p ∨ a ≠ .fieldSchema) : assoc (τ.ownOf x) a = assoc (σ.ownOf x) a := by
   by_cases e : x = p
   · subst e
-    rcases h.own_p with ⟨_, h1⟩ | ⟨r, h1, _⟩
+    rcases h.own_p with ⟨_, h1, _⟩ | ⟨r, h1, _, _⟩
     · rw [h1]
     · rw [h1 a, if_neg]
       rcases hxa with hx | ha
@@ -612,66 +623,134 @@ theorem findSome?_append' {α β : Type} (f : α → Option β) (a b : List α) 
   | nil => simp
   | cons x r ih => simp only [List.cons_append, List.findSome?_cons]; cases f x <;> simp [ih]
 
-/-- the user-supplied members a class sees are the same before and after an ancestor (or the
-    class itself) was prepared -/
-theorem userFields_preparedFrom {σ τ : State} {p : ClassId} (h : PreparedFrom σ τ p) (hwf : WF σ)
+/-- the members a preparation starts from, given the owner of the `field_schema` attribute -/
+def suppliedFrom (σ : State) : Option (ClassId × Val) → List Item
+  | none => []
+  | some (x, v) =>
+    match builtOf σ x with
+    | some (r, supplied) => if v = .list r then supplied else itemsOfVal σ v
+    | none => itemsOfVal σ v
+
+theorem suppliedOf_eq (σ : State) (c : ClassId) :
+    suppliedOf σ c = suppliedFrom σ (ownerOf σ c .fieldSchema) := by
+  unfold suppliedOf suppliedFrom
+  cases ownerOf σ c .fieldSchema with
+  | none => rfl
+  | some xv => rfl
+
+def ownerFn (σ : State) (a : Attr) (x : ClassId) : Option (ClassId × Val) :=
+  (assoc (σ.ownOf x) a).map (fun v => (x, v))
+
+theorem ownerOf_eq (σ : State) (c : ClassId) (a : Attr) :
+    ownerOf σ c a = (σ.mroOf c).findSome? (ownerFn σ a) := rfl
+
+theorem ownerFn_some {σ : State} {a : Attr} {l : List ClassId} {x : ClassId} {v : Val}
+    (h : l.findSome? (ownerFn σ a) = some (x, v)) : x ∈ l ∧ assoc (σ.ownOf x) a = some v := by
+  obtain ⟨y, hy, hyv⟩ := List.exists_of_findSome?_eq_some h
+  unfold ownerFn at hyv
+  cases hh : assoc (σ.ownOf y) a with
+  | none => simp [hh] at hyv
+  | some w =>
+    simp only [hh, Option.map_some, Option.some.injEq, Prod.mk.injEq] at hyv
+    obtain ⟨rfl, rfl⟩ := hyv
+    exact ⟨hy, hh⟩
+
+theorem itemsOfVal_eq {σ τ : State} (hwf : WF σ) (hheap : ∀ r, r < σ.heap.length → τ.items r = σ.items r)
+    (x : ClassId) (a : Attr) (v : Val) (hx : assoc (σ.ownOf x) a = some v) :
+    itemsOfVal τ v = itemsOfVal σ v := by
+  cases v <;> simp only [itemsOfVal]
+  case list r => exact hheap r (hwf.ref_lt x a r (Or.inl hx))
+  case tuple r => exact hheap r (hwf.ref_lt x a r (Or.inr (Or.inl hx)))
+
+theorem suppliedFrom_eq {σ τ : State} (hwf : WF σ) (hheap : ∀ r, r < σ.heap.length → τ.items r = σ.items r)
+    (x : ClassId) (v : Val) (hb : builtOf τ x = builtOf σ x) (hx : assoc (σ.ownOf x) .fieldSchema = some v) :
+    suppliedFrom τ (some (x, v)) = suppliedFrom σ (some (x, v)) := by
+  simp only [suppliedFrom, hb, itemsOfVal_eq hwf hheap x _ v hx]
+
+/-- the members a class is supplied with are the same before and after an ancestor (or the class
+    itself) was prepared -/
+theorem suppliedOf_preparedFrom {σ τ : State} {p : ClassId} (h : PreparedFrom σ τ p) (hwf : WF σ)
     (c : ClassId) (pre tl : List ClassId) (hm : σ.mroOf c = pre ++ σ.mroOf p) (hp : σ.mroOf p = p :: tl)
-    (hpre : p ∉ pre) :
-    userFields (seqOf τ c .fieldSchema) = userFields (seqOf σ c .fieldSchema) := by
-  rcases h.own_p with ⟨_, h1⟩ | ⟨r, h1, hitems⟩
-  · -- nothing was bound: every lookup is unchanged
-    have : τ.lookup c .fieldSchema = σ.lookup c .fieldSchema := by
-      unfold State.lookup
-      rw [h.mro c]
-      refine findSome?_ext' _ _ _ (fun x _ => ?_)
+    (hpre : p ∉ pre) : suppliedOf τ c = suppliedOf σ c := by
+  rw [suppliedOf_eq, suppliedOf_eq, ownerOf_eq, ownerOf_eq, h.mro c]
+  rcases h.own_p with ⟨_, h1, hb1⟩ | ⟨r, h1, hitems, hbuilt⟩
+  · -- nothing was bound: owners, `_compound_built` and list contents are all unchanged
+    have hfn : ∀ x ∈ σ.mroOf c, ownerFn τ .fieldSchema x = ownerFn σ .fieldSchema x := by
+      intro x _
+      unfold ownerFn
       by_cases e : x = p
       · rw [e, h1]
       · rw [h.own_ne x e]
-    rw [seqOf_of_lookup_eq hwf h.heap c _ this]
-  · have hpreown : ∀ x ∈ pre, assoc (τ.ownOf x) Attr.fieldSchema = assoc (σ.ownOf x) Attr.fieldSchema :=
-      fun x hx => by rw [h.own_ne x (fun e => hpre (e ▸ hx))]
-    have hτ : τ.lookup c .fieldSchema
-        = (pre.findSome? (fun x => assoc (σ.ownOf x) Attr.fieldSchema)).or (some (.list r)) := by
-      unfold State.lookup
-      rw [h.mro c, hm, hp, findSome?_append', findSome?_ext' _ _ pre hpreown]
-      simp [List.findSome?_cons, h1]
-    have hσ : σ.lookup c .fieldSchema
-        = (pre.findSome? (fun x => assoc (σ.ownOf x) Attr.fieldSchema)).or (σ.lookup p .fieldSchema) := by
-      unfold State.lookup
-      rw [hm, findSome?_append']
-    cases hfound : pre.findSome? (fun x => assoc (σ.ownOf x) Attr.fieldSchema) with
-    | some v =>
-      have : τ.lookup c .fieldSchema = σ.lookup c .fieldSchema := by rw [hτ, hσ, hfound]; rfl
-      rw [seqOf_of_lookup_eq hwf h.heap c _ this]
+    rw [findSome?_ext' _ _ _ hfn]
+    cases hfound : (σ.mroOf c).findSome? (ownerFn σ .fieldSchema) with
+    | none => rfl
+    | some xv =>
+      obtain ⟨x, v⟩ := xv
+      have hx := (ownerFn_some hfound).2
+      apply suppliedFrom_eq hwf h.heap x v _ hx
+      by_cases e : x = p
+      · rw [e, hb1]
+      · exact h.built_ne x e
+  · have hprefn : ∀ x ∈ pre, ownerFn τ .fieldSchema x = ownerFn σ .fieldSchema x := by
+      intro x hx
+      unfold ownerFn
+      rw [h.own_ne x (fun e => hpre (e ▸ hx))]
+    rw [hm, findSome?_append', findSome?_append', findSome?_ext' _ _ pre hprefn]
+    cases hfound : pre.findSome? (ownerFn σ .fieldSchema) with
+    | some xv =>
+      obtain ⟨x, v⟩ := xv
+      obtain ⟨hxin, hx⟩ := ownerFn_some hfound
+      simp only [Option.some_or]
+      exact suppliedFrom_eq hwf h.heap x v (h.built_ne x (fun e => hpre (e ▸ hxin))) hx
     | none =>
-      have h1' : seqOf τ c .fieldSchema = preparedOf σ p := by
-        unfold seqOf; rw [hτ, hfound]; simp [hitems]
-      have h2' : seqOf σ c .fieldSchema = seqOf σ p .fieldSchema := by
-        unfold seqOf; rw [hσ, hfound]; rfl
-      rw [h1', h2', preparedOf, userFields_preparedFields]
+      simp only [Option.none_or]
+      -- τ: the owner is p with the freshly built list; σ: whatever p resolves to
+      have hτ : (σ.mroOf p).findSome? (ownerFn τ .fieldSchema) = some (p, .list r) := by
+        rw [hp]; simp [List.findSome?_cons, ownerFn, h1]
+      rw [hτ]
+      have : suppliedFrom τ (some (p, .list r)) = suppliedOf σ p := by
+        simp [suppliedFrom, hbuilt]
+      rw [this, suppliedOf_eq, ownerOf_eq]
+
+/-- … and for a class that does not have `p` in its MRO at all -/
+theorem suppliedOf_preparedFrom_unrelated {σ τ : State} {p : ClassId} (h : PreparedFrom σ τ p) (hwf : WF σ)
+    (c : ClassId) (hnot : p ∉ σ.mroOf c) : suppliedOf τ c = suppliedOf σ c := by
+  rw [suppliedOf_eq, suppliedOf_eq, ownerOf_eq, ownerOf_eq, h.mro c]
+  have hfn : ∀ x ∈ σ.mroOf c, ownerFn τ .fieldSchema x = ownerFn σ .fieldSchema x := by
+    intro x hx
+    unfold ownerFn
+    rw [h.own_ne x (fun e => hnot (e ▸ hx))]
+  rw [findSome?_ext' _ _ _ hfn]
+  cases hfound : (σ.mroOf c).findSome? (ownerFn σ .fieldSchema) with
+  | none => rfl
+  | some xv =>
+    obtain ⟨x, v⟩ := xv
+    obtain ⟨hxin, hx⟩ := ownerFn_some hfound
+    exact suppliedFrom_eq hwf h.heap x v (h.built_ne x (fun e => hnot (e ▸ hxin))) hx
 
 /-- **Regeneration rule / history independence of compound members.**  Let class `c` inherit
     from compound class `p` (or be `p` itself).  The member list `c` gets when it is prepared —
-    its user-supplied members, kept wherever they sit, followed by year/month/day generated
-    from `c`'s own `optional` for the positions left open — is the same whether or not `p` was
-    prepared (instantiated) before. -/
+    the members it is supplied with (its own or inherited user list taken as it is; a list built
+    by an ancestor's preparation replaced by what that preparation started from) followed by
+    year/month/day generated from `c`'s own `optional` for the positions left open — is the same
+    whether or not `p` was prepared (instantiated) before. -/
 theorem compound_fields_history_independent (σ : State) (hwf : WF σ) (p c : ClassId)
     (hp : p < σ.classes.length) (pre tl : List ClassId) (hm : σ.mroOf c = pre ++ σ.mroOf p)
     (hmp : σ.mroOf p = p :: tl) (hpre : p ∉ pre) :
     preparedOf (compoundInit σ p).1 c = preparedOf σ c := by
   have h := compoundInit_preparedFrom σ p hp
   unfold preparedOf optionalOf
-  rw [userFields_preparedFrom h hwf c pre tl hm hmp hpre,
+  rw [suppliedOf_preparedFrom h hwf c pre tl hm hmp hpre,
     lookup_ne_preparedFrom h c .optional (by decide)]
 
 /-- what `compoundInit` binds to `field_schema` is `preparedOf` (so the theorem above is about
     the list the class really gets), whenever members have to be generated -/
 theorem compoundInit_stores (σ : State) (c : ClassId) (hc : c < σ.classes.length) (tl : List ClassId)
     (hm : σ.mroOf c = c :: tl)
-    (h4 : (seqOf σ c .fieldSchema).length < 4) (h3 : (userFields (seqOf σ c .fieldSchema)).length ≠ 3) :
+    (h4 : (seqOf σ c .fieldSchema).length < 4) (h3 : (suppliedOf σ c).length ≠ 3) :
     seqOf (compoundInit σ c).1 c .fieldSchema = preparedOf σ c := by
   have h := compoundInit_preparedFrom σ c hc
-  rcases h.own_p with ⟨h', _⟩ | ⟨r, h1, hitems⟩
+  rcases h.own_p with ⟨h', _⟩ | ⟨r, h1, hitems, _⟩
   · rcases h' with h' | h'
     · exact absurd h4 (Nat.not_lt.2 h')
     · exact absurd h' h3
@@ -679,18 +758,11 @@ theorem compoundInit_stores (σ : State) (c : ClassId) (hc : c < σ.classes.leng
     rw [h.mro c, hm]
     simp [List.findSome?_cons, h1, hitems]
 
-/-- with three user-supplied members nothing is generated and the list is kept as it is -/
-theorem preparedOf_three (σ : State) (c : ClassId) (h4 : (seqOf σ c .fieldSchema).length < 4)
-    (h3 : (userFields (seqOf σ c .fieldSchema)).length = 3) :
-    preparedOf σ c = seqOf σ c .fieldSchema := by
-  have hle : (userFields (seqOf σ c .fieldSchema)).length ≤ (seqOf σ c .fieldSchema).length :=
-    List.length_filter_le _ _
-  have hlen : (seqOf σ c .fieldSchema).length = 3 := by omega
-  have heq : userFields (seqOf σ c .fieldSchema) = seqOf σ c .fieldSchema := by
-    unfold userFields at h3 ⊢
-    exact List.filter_eq_self.2 (List.length_filter_eq_length_iff.1 (by rw [h3, hlen]))
+/-- with three supplied members nothing is generated: the supplied list is the prepared list -/
+theorem preparedOf_three (σ : State) (c : ClassId) (h3 : (suppliedOf σ c).length = 3) :
+    preparedOf σ c = suppliedOf σ c := by
   unfold preparedOf preparedFields
-  rw [heq, hlen]
+  rw [h3]
   simp [generatedDefaults]
 
 /-! ## what the lazy preparation of a compound class preserves (KF-C06-a, the guarded part) -/
@@ -1004,6 +1076,8 @@ theorem WF_usingBody (n : ClassId) :
         exact WF_usingBody n rest _ σ2 (WF_setOwn _ (WF_alloc σ1 hwf _) n a _ (RefOK_alloc σ1 _).1) h
       case members ms =>
         exact WF_usingBody n rest _ σ2 (WF_setOwn _ (WF_alloc σ1 hwf _) n a _ (RefOK_alloc σ1 _).1) h
+      case memberRefs ms =>
+        exact WF_usingBody n rest _ σ2 (WF_setOwn _ (WF_alloc σ1 hwf _) n a _ (RefOK_alloc σ1 _).1) h
       all_goals exact WF_usingBody n rest _ σ2 (WF_setOwn σ1 hwf n a _ (RefOK_atomOf σ1 _)) h
     · simp at h
 
@@ -1173,6 +1247,8 @@ theorem SameShape_usingBody (n : ClassId) :
       case labels ls =>
         exact ((SameShape_alloc σ1 _).trans (SameShape_setOwn _ n a _)).trans (SameShape_usingBody n rest _ σ2 h)
       case members ms =>
+        exact ((SameShape_alloc σ1 _).trans (SameShape_setOwn _ n a _)).trans (SameShape_usingBody n rest _ σ2 h)
+      case memberRefs ms =>
         exact ((SameShape_alloc σ1 _).trans (SameShape_setOwn _ n a _)).trans (SameShape_usingBody n rest _ σ2 h)
       all_goals exact (SameShape_setOwn σ1 n a _).trans (SameShape_usingBody n rest _ σ2 h)
     · simp at h
@@ -1369,7 +1445,7 @@ theorem propsOf_compoundInit (σ : State) (p c : ClassId) :
   · rfl
   · split
     · exact propsView_updCls σ p setPrepared (fun _ => rfl) x
-    · rw [propsView_updCls _ p setPrepared (fun _ => rfl) x]
+    · rw [propsView_updCls _ p (setBuilt _ _) (fun _ => rfl) x]
       unfold setOwn
       exact propsView_updCls _ p (fun cl => { cl with own := assocSet cl.own .fieldSchema (.list σ.heap.length) })
         (fun _ => rfl) x
@@ -1531,17 +1607,36 @@ theorem optionalOf_eq (σ : State) (c : ClassId) :
   | none => rfl
   | some v => cases v <;> rfl
 
-/-- one step, any step: everything but `field_schema` is kept, and of `field_schema` the
-    user-supplied members -/
+/-- a store extension leaves the members every old class is supplied with unchanged -/
+theorem suppliedOf_pre (σ τ : State) (hwf : WF σ) (hp : Pre σ τ) (c : ClassId) (hc : c < σ.classes.length) :
+    suppliedOf τ c = suppliedOf σ c := by
+  have hm : τ.mroOf c = σ.mroOf c := by simp [State.mroOf, hp.cls c hc]
+  have hheap : ∀ r, r < σ.heap.length → τ.items r = σ.items r := fun r hr => by
+    simp [State.items, hp.heap r hr]
+  rw [suppliedOf_eq, suppliedOf_eq, ownerOf_eq, ownerOf_eq, hm]
+  have hfn : ∀ x ∈ σ.mroOf c, ownerFn τ .fieldSchema x = ownerFn σ .fieldSchema x := by
+    intro x hx
+    simp [ownerFn, State.ownOf, hp.cls x (hwf.mro_lt c x hx)]
+  rw [findSome?_ext' _ _ _ hfn]
+  cases hfound : (σ.mroOf c).findSome? (ownerFn σ .fieldSchema) with
+  | none => rfl
+  | some xv =>
+    obtain ⟨x, v⟩ := xv
+    obtain ⟨hxin, hx⟩ := ownerFn_some hfound
+    apply suppliedFrom_eq hwf hheap x v _ hx
+    simp [builtOf, hp.cls x (hwf.mro_lt c x hxin)]
+
+/-- one step, any step: everything but `field_schema` is kept, and of `field_schema` the members
+    the class is supplied with -/
 theorem frame_step_any (σ : State) (hwf : WF σ) (hch : ChainWF σ) (s : Step) (c : ClassId)
     (hc : c < σ.classes.length) :
     (∀ a, a ≠ .fieldSchema → deepLookup (step σ s).1 c a = deepLookup σ c a) ∧
     propsOf (step σ s).1 c = propsOf σ c ∧
-    userFields (seqOf (step σ s).1 c .fieldSchema) = userFields (seqOf σ c .fieldSchema) := by
+    suppliedOf (step σ s).1 c = suppliedOf σ c := by
   cases hl : lazyPrep σ s with
   | none =>
     obtain ⟨h1, h2⟩ := frame σ hwf s hl c hc
-    exact ⟨fun a _ => h1 a, h2, by rw [seqOf_eq_dseq, h1, ← seqOf_eq_dseq]⟩
+    exact ⟨fun a _ => h1 a, h2, suppliedOf_pre σ _ hwf (step_pre σ s hl) c hc⟩
   | some p =>
     refine ⟨(frame_lazy σ hwf s p hl c).1, ?_, ?_⟩
     · rcases step_lazy_state σ s p hl with e | ⟨_, e⟩ <;> rw [e]
@@ -1550,8 +1645,9 @@ theorem frame_step_any (σ : State) (hwf : WF σ) (hch : ChainWF σ) (s : Step) 
       · rcases step_lazy_state σ s p hl with e | ⟨hp, e⟩ <;> rw [e]
         obtain ⟨pre, hm, hpre⟩ := hch.suffix c p hin
         obtain ⟨tl, htl⟩ := hch.head p hp
-        exact userFields_preparedFrom (compoundInit_preparedFrom σ p hp) hwf c pre tl hm htl hpre
-      · rw [seqOf_eq_dseq, (frame_lazy σ hwf s p hl c).2 hin, ← seqOf_eq_dseq]
+        exact suppliedOf_preparedFrom (compoundInit_preparedFrom σ p hp) hwf c pre tl hm htl hpre
+      · rcases step_lazy_state σ s p hl with e | ⟨hp, e⟩ <;> rw [e]
+        exact suppliedOf_preparedFrom_unrelated (compoundInit_preparedFrom σ p hp) hwf c hin
 
 /-- **What every history preserves.**  Along every chain of constructor calls and
     instantiations whatsoever — lazily preparing instantiations of the class or of its ancestors
@@ -1561,7 +1657,7 @@ theorem frame_step_any (σ : State) (hwf : WF σ) (hch : ChainWF σ) (s : Step) 
 theorem frame_history_any : ∀ (ss : List Step) (σ : State), WF σ → ChainWF σ → ∀ c, c < σ.classes.length →
     (∀ a, a ≠ .fieldSchema → deepLookup (run σ ss).1 c a = deepLookup σ c a) ∧
     propsOf (run σ ss).1 c = propsOf σ c ∧
-    userFields (seqOf (run σ ss).1 c .fieldSchema) = userFields (seqOf σ c .fieldSchema)
+    suppliedOf (run σ ss).1 c = suppliedOf σ c
   | [], _, _, _, _, _ => ⟨fun _ _ => rfl, rfl, rfl⟩
   | s :: ss, σ, hwf, hch, c, hc => by
     obtain ⟨h1, h2, h3⟩ := frame_step_any σ hwf hch s c hc
@@ -1673,5 +1769,25 @@ example : observeNoFields (run (initState .compound []) kfSteps).1 0 = observeNo
   frame_history_noFields kfSteps _ (WF_of_wfB _ (by decide)) (ChainWF_initState _ _) 0 (by decide)
 example : preparedOf (run (initState .compound []) kfSteps).1 0 = preparedOf (initState .compound []) 0 :=
   preparedOf_history kfSteps _ (WF_of_wfB _ (by decide)) (ChainWF_initState _ _) 0 (by decide)
+
+/-! ## fix 33c5842: a user-supplied member list is taken as it is, whatever members it reuses -/
+
+/-- `Base = DateYYYYMMDD.using(); Base(); y, m, d = Base.field_schema;
+    Custom = Base.using(field_schema=[y, m, d.using(optional=True)]); Custom()` -/
+def reuseSteps : List Step :=
+  [.inst 0 [], .using 0 [(.attr .fieldSchema, .memberRefs [.inr (0, 0, none), .inr (0, 1, none), .inr (0, 2, some true)])],
+   .inst 1 []]
+
+/-- the custom class keeps [year, month, day'] — the members the prepared base generated are not
+    dropped (under 71fc8fd's marker rule the list became [day', month, day]) -/
+example : seqOf (run (initState .compound []) reuseSteps).1 1 .fieldSchema
+    = [.gen "year".toList "%04i".toList false, .gen "month".toList "%02i".toList false,
+       .gen "day".toList "%02i".toList true] := by decide
+
+/-- while a class that merely inherits the list the base's preparation built is regenerated from what
+    that preparation started from (nothing) with its own `optional` -/
+example : preparedOf (run (initState .compound []) [.inst 0 [], .using 0 [(.attr .optional, .bool true)]]).1 1
+    = [.gen "year".toList "%04i".toList true, .gen "month".toList "%02i".toList true,
+       .gen "day".toList "%02i".toList true] := by decide
 
 end Flatland.C06.Proofs
